@@ -1,11 +1,12 @@
 """C08 — sorting collections agree on one arrangement-independent acquisition order."""
+import bprop
 import common
 import shapes
 from common import from_replay, to_replay  # noqa: F401
 
 COQ_MODULE = "Prop_C08"
 THEOREMS = ["C08_sort_perm_invariant", "C08_common_same_order", "C08_monitor"]
-CASE_MODULES = ["Monitors"]
+CASE_MODULES = ["Monitors", "Conc", "BMonitors"]
 CHECK_WITHOUT_PROOF = True
 TRUSTED = common.TRUSTED_COMMON
 ASSUMPTIONS = common.ASSUME_COMMON + ["an owned collection's locks are reachable only through that collection"]
@@ -13,7 +14,12 @@ RULE = ("pairs of sorting collections (boxed / ref, optionally inside Poisonable
         "universe of up to 5 free-standing leaves plus nested boxed / ref / retrying members and owned groups, each "
         "listing a random subset in an independent random order; both modes; second acquisition on another thread; "
         "observation = sequence of blocking raw acquisitions per call; non-trivial = at least 2 common locks listed "
-        "in different relative orders or a nested / owned member in common; distinct = distinct pair of descriptions")
+        "in different relative orders or a nested / owned member in common; distinct = distinct pair of descriptions; plus "
+        "interleaved (Level B) programs of 2-4 threads taking sorting collections that list the same (mostly RwLock) leaves "
+        "in different orders, in both modes, against holders of single leaves: the order in which every blocking "
+        "acquisition took the locks it holds when it hands out its guard / enters its closure must agree pairwise on the "
+        "common locks (BMonitors.v mon_C08b)")
+BCOUNT = {"quick": 500, "thorough": 8000}
 EXHAUSTIVE = {"quick": False, "thorough": False}
 
 
@@ -78,21 +84,32 @@ def gen(tier, rng):
         nested_common = any(c not in b.leaf_of for c in set(m1) & set(m2))
         scens.append(b.scen(hist=hist, meta={"d1": b.desc[roots[0]], "d2": b.desc[roots[1]], "modes": modes,
                                              "ncommon": len(common_locks), "nested_common": nested_common}))
-    return scens
+    bs = bprop.gen("C08", tier, rng, n=BCOUNT[tier] if n >= 1500 else max(1, n // 3))
+    for s_ in bs:
+        s_.sid = "b" + s_.sid
+    return scens + bs
 
 
 def coq_expr(s, r):
+    if s.sched:
+        return bprop.coq_expr("C08", s, r, "b")
     return f"check_C08 ({s.coq(*r['adr'])}) {common.obs_list(r)}"
 
 
 def classify(s, r):
+    if s.sched:
+        return ["interleaved"] + bprop.classify(s, r)
     return [f"ncommon={s.meta['ncommon']}", f"modes={'/'.join(s.meta['modes'])}",
             "nested_common=" + str(s.meta["nested_common"])]
 
 
 def nontrivial(s, r):
+    if s.sched:
+        return "BWait" in (r["bobs"] or "")
     return s.meta["ncommon"] >= 2 or s.meta["nested_common"]
 
 
 def signature(s):
+    if s.sched:
+        return s.text()
     return (s.meta["d1"], s.meta["d2"], tuple(s.meta["modes"]))
